@@ -34,6 +34,9 @@ inline std::string render(const Program &p, const CaseResult &r) {
   return program_to_text(p, target::optable(), &r.annot);
 }
 
+// directory for short-lived files of a case (the worker's directory; next to the binary when replaying)
+inline std::string &scratch_dir() { static std::string d = "."; return d; }
+
 inline int generic_main(int argc, char **argv) {
   std::string mode, id, out, work, file;
   for (int i = 1; i < argc; ++i) {
@@ -42,6 +45,11 @@ inline int generic_main(int argc, char **argv) {
     else if (a == "--replay" && i + 2 < argc) { mode = "replay"; id = argv[++i]; file = argv[++i]; }
     else if (a == "--out" && i + 1 < argc) out = argv[++i];
     else if (a == "--work" && i + 1 < argc) work = argv[++i];
+  }
+  {
+    std::string self = argv[0];
+    size_t sl = self.rfind('/');
+    scratch_dir() = !work.empty() ? work : (sl == std::string::npos ? std::string(".") : self.substr(0, sl));
   }
   if (mode == "replay") {
     std::ifstream in(file);
